@@ -10,6 +10,7 @@ import itertools
 import random
 
 from .. import tlc
+from ..tlc import MachineryError
 from ..core import log
 from ..words import K32, limbs, unlimbs, rand32
 
@@ -199,6 +200,16 @@ def run(ctx):
     # ---- TLC on the spec ----
     ctx.mc('MC_BV', constants={'NMAX': '6' if q else '8', 'SMAX': '40' if q else '255'})
     ctx.mc('MC_W32', constants={'SMAX': '40' if q else '255', 'YSTEP': '9' if q else '1'})
+    # ---- Apalache: the limb operators TLC runs = the mathematical definition, for ALL 32-bit operands ----
+    from .. import apalache
+    lem = apalache.run_lemmas(['AddInv', 'SubInv', 'CmpInv', 'LslInv', 'LsrInv', 'BitInv', 'TopMaskInv', 'CanaryFalseInv'])
+    bad = [r['inv'] for r in lem if r['ok'] != (r['inv'] != 'CanaryFalseInv')]
+    if bad:
+        raise MachineryError('Apalache lemmas of spec/apa/APA_W32.tla: unexpected result for %s (the limb library W32.tla '
+                             'disagrees with the integer definition, or the false canary lemma was accepted)' % bad)
+    ctx.extra['apalache_lemmas'] = {r['inv']: ('refuted (expected: canary)' if not r['ok'] else 'proved for all 2^32 x 2^32 operands, %.0fs' % r['seconds'])
+                                    for r in lem}
+    log('  Apalache: %s' % ', '.join('%s %s' % (r['inv'], 'ok' if r['ok'] else 'refuted') for r in lem))
     # ---- code -> spec ----
     amounts = (list(range(0, 20)) + [31, 32, 33, 63, 64, 65, 127, 128, 255]) if q else list(range(256))
     wmax = 6 if q else 8
